@@ -51,14 +51,21 @@ theorem export_targets_kept (g : GcInfo) (hd : usedFinished g = true) (e : Strin
   apply usedSet_roots g hd
   unfold gcRoots
   simp only [List.mem_append, List.mem_map]
-  exact Or.inl (Or.inl (Or.inl ⟨e, he, rfl⟩))
+  exact Or.inl (Or.inl (Or.inl (Or.inl ⟨e, he, rfl⟩)))
 
 theorem start_kept (g : GcInfo) (hd : usedFinished g = true) (s : Nat) (hs : g.m.start = some s) :
     ("f", s) ∈ usedSet g := by
   apply usedSet_roots g hd
   unfold gcRoots
   simp only [List.mem_append, List.mem_map]
-  exact Or.inl (Or.inl (Or.inr ⟨s, by simp [hs], rfl⟩))
+  exact Or.inl (Or.inl (Or.inl (Or.inr ⟨s, by simp [hs], rfl⟩)))
+
+/-- what a custom section declares as a root is kept -/
+theorem custom_section_roots_kept (g : GcInfo) (hd : usedFinished g = true) (x : Ent) (hx : x ∈ g.m.roots) :
+    x ∈ usedSet g := by
+  apply usedSet_roots g hd
+  unfold gcRoots
+  exact List.mem_append_right _ hx
 
 /-- **everything a kept entity refers to is kept** (for every edge the code scans) -/
 theorem referents_kept (g : GcInfo) (hd : usedFinished g = true) (x y : Ent)
